@@ -10,8 +10,8 @@
    lower merged, minus the deleted refs; the refill loop of its enumeration is proved to return the first `limit`
    undeleted entries after the cursor, the number of rounds bounded by the number of entries held); hence (by
    induction on the configuration) every nesting of these six over leaves does, for every operation sequence.
-   union is read-only (its own theorem), overlay without a deleted index refuses removals: neither is a map and
-   both stay outside the nesting theorem; leaves are maps here (their internals: C03, C04, C11). *)
+   union is read-only (its reads refine the union of its members, its writes are refused: two theorems), overlay
+   without a deleted index refuses removals: neither is a map and both stay outside the nesting theorem; leaves are maps here (their internals: C03, C04, C11). *)
 From Coq Require Import List NArith ZArith Bool.
 From PK.Base Require Import Bytes Lex SortedMap.
 From PK.Model Require Import Merge C12 C01.
@@ -128,6 +128,15 @@ Theorem C01_nest_behaves_as_map : forall content c ops, C01b.shape_ok c = true -
   Forall (C01.op_ok content) ops -> run (sem c) (init c) ops = C01b.run_spec [] ops.
 Proof. exact C01b.nest_behaves_as_map. Qed.
 Print Assumptions C01_nest_behaves_as_map.
+
+(* the read-only union: every read answers as the reference map of its members' union (the first member that holds a
+   blob wins; under content addressing all holders agree), and leaves that map as it was *)
+Theorem C01_union_reads_refine : forall content T, C01.okl content T -> forall s o, C01.node_inv T s -> C01b.is_read o ->
+  C01.node_inv T (fst (union_m (map C01.tM T) s o)) /\
+  C01.node_abs T (fst (union_m (map C01.tM T) s o)) = C01.node_abs T s /\
+  snd (union_m (map C01.tM T) s o) = C01.spec_out (C01.node_abs T s) o.
+Proof. exact C01b.union_reads_refine. Qed.
+Print Assumptions C01_union_reads_refine.
 
 Theorem C01_union_readonly : forall ms s o, (match o with Recv _ _ _ | Remove _ => True | _ => False end) ->
   match s with SNode _ _ => union_m ms s o = (s, OErr EReadonly) | _ => True end.
